@@ -8,6 +8,13 @@ import z3
 from .core import *  # noqa
 
 REGISTRY = {}
+GLOBAL_AXIOMS = []  # definitional facts added to every obligation (listed in the evidence)
+
+# Trigger marker: Tr(i) is true for every i.  It gives quantifiers whose body
+# mentions the bound variable only under an equality a term to match on.
+Tr = z3.Function("Tr", z3.IntSort(), z3.BoolSort())
+_i = z3.Int("tr_i")
+GLOBAL_AXIOMS.append(z3.ForAll([_i], Tr(_i), patterns=[Tr(_i)]))
 CLASSES = {}  # class name -> dict(module=..., fields={attr: Ty}, props=set())
 
 
